@@ -283,7 +283,9 @@ def part_a(ctx, res):
 class Net:
     """real nodes, FIFO channels between them; all scheduling is explicit"""
 
-    def __init__(self, rng, coinstates, edges):
+    def __init__(self, rng, coinstates, edges, same_host=False):
+        """`same_host`: every node is reached under one address (several nodes on one machine or behind one NAT address),
+        told apart by port only — nothing the property says depends on addresses being distinct"""
         node.install_clock()
         self.rng = rng
         self.nodes = []
@@ -300,8 +302,12 @@ class Net:
             a.setblocking(False)
             b.setblocking(False)
             self.socks += [a, b]
-            pi = ConnectedRemotePeer(self.nodes[i], "10.0.0.%d" % (j + 1), 2412, OUTGOING, None, a, 0)
-            pj = ConnectedRemotePeer(self.nodes[j], "10.0.0.%d" % (i + 1), 40000 + i, INCOMING, None, b, 0)
+            if same_host:
+                pi = ConnectedRemotePeer(self.nodes[i], "127.0.0.1", 2412 + j, OUTGOING, None, a, 0)
+                pj = ConnectedRemotePeer(self.nodes[j], "127.0.0.1", 40000 + 16 * i + j, INCOMING, None, b, 0)
+            else:
+                pi = ConnectedRemotePeer(self.nodes[i], "10.0.0.%d" % (j + 1), 2412, OUTGOING, None, a, 0)
+                pj = ConnectedRemotePeer(self.nodes[j], "10.0.0.%d" % (i + 1), 40000 + i, INCOMING, None, b, 0)
             self.nodes[i].selector.register(a, selectors.EVENT_READ, data=pi)
             self.nodes[j].selector.register(b, selectors.EVENT_READ, data=pj)
             self.nodes[i].network_manager.handle_peer_connected(pi)
@@ -515,9 +521,12 @@ def part_b(ctx, res):
             edges = [(0, 1), (1, 2)]
             late = (2,)
             res.count("staged_line")
-        net = Net(rng, coinstates, edges)
+        same_host = (ri % 2 == 1)
+        net = Net(rng, coinstates, edges, same_host=same_host)
         windows = net.run_to_fixpoint(late=late)
+        res.count("addresses:" + ("one host, distinct ports" if same_host else "distinct hosts"))
         info = {"run": ri, "nodes": n_nodes, "edges": edges, "batch": batch, "fork": depth_kind, "late": list(late),
+                "same_host": same_host,
                 "heights": [cs.head().height for cs in coinstates]}
         res.case(("net", ri, tuple(tips)), nontrivial=True)
         res.count("topology:%d-node/%d-edges" % (n_nodes, len(edges)))
